@@ -356,3 +356,14 @@ def m7_lexical(ctx):
 
 
 RULES.append(('M7', m7_lexical))
+
+
+def m8_matcher(ctx):
+    """M8 the pattern scan of rule_tokinizer / find_match, tabulated (scv/matcher.py): which tokens a rule function is handed
+    for each named field and what the matched run is replaced by, on every line of up to three (thorough: four) tokens"""
+    from ..matcher import matcher_table
+    ctx.rule('M8', 'pattern scan: matches, field bindings and replacement (tabulated)', floor=1)
+    matcher_table(ctx, 'M8', deep=(ctx.tier == 'thorough' and ctx.cfg_name == 'dev'))
+
+
+RULES.append(('M8', m8_matcher))
